@@ -4,8 +4,10 @@ import RossModel.Event
 
 The interface is abstract here (the `Interface` trait): a queue of `try_get_packet` results and a
 queue of `try_send_packet` results; what the protocol does to the outside world goes to one ordered log.
-A handler closure is its identity (`token`), its capture flag, and the packets it transmits through
-the `&mut Protocol` it is handed (to devices other than its own, as C15 allows).
+A handler closure is its identity (`token`), its capture flag, and the packets it sends through
+the `&mut Protocol` it is handed: to other devices (C15), or to the device's own address, which loops
+the packet back to every handler re-entrantly (C16). A handler invoked re-entrantly records the packet
+and sends nothing, so the nesting is one level deep.
 -/
 namespace Ross
 
@@ -28,6 +30,7 @@ structure Handler where
 
 inductive LogEntry where
   | call (token : Nat) (p : Packet)     -- a handler closure was invoked with `p`
+  | ncall (token : Nat) (p : Packet)    -- … re-entrantly, from inside another callback's `send_packet`
   | tx (p : Packet) (ok : Bool)         -- `interface.try_send_packet(p)` was called and returned ok/err
   | wait                                -- the wait closure of an exchange ran
   deriving Repr, DecidableEq
@@ -72,11 +75,23 @@ def Proto.ifaceSend (s : Proto) (p : Packet) : Proto × Except PErr Unit :=
   | none :: q => ({ s with txQueue := q, log := s.log ++ [LogEntry.tx p true] }, .ok ())
   | some t :: q => ({ s with txQueue := q, log := s.log ++ [LogEntry.tx p false] }, .error (.interface t))
 
-/-- a packet a handler sends from inside its callback: `send_packet` to another device
-(the callback ignores the result) -/
+/-- `handle_packet(q, true)` entered from inside a callback: every handler, in id order, is invoked
+re-entrantly (and, invoked that way, only records the packet) -/
+def Proto.nestedDispatch (s : Proto) (q : Packet) : Proto :=
+  { s with log := s.log ++ s.handlers.map fun x => LogEntry.ncall x.2.token q }
+
+/-- `send_packet` called by a handler from inside its callback (the callback ignores the result):
+the same routing as `Proto.sendPacket` below -/
+def Proto.nestedSend (s : Proto) (q : Packet) : Proto :=
+  if q.addr == s.addr then
+    let s' := s.nestedDispatch q
+    if s.addr != BROADCAST then s' else (s'.ifaceSend q).1
+  else (s.ifaceSend q).1
+
+/-- the packets a handler sends from inside its callback, in order -/
 def Proto.handlerSends (s : Proto) : List Packet → Proto
   | [] => s
-  | q :: qs => ((s.ifaceSend q).1).handlerSends qs
+  | q :: qs => (s.nestedSend q).handlerSends qs
 
 /-- `handle_packet`: every handler in id order if `owned`, else the capture-all ones -/
 def Proto.dispatch (s : Proto) (p : Packet) (owned : Bool) : Proto :=
